@@ -60,6 +60,7 @@ class SpiWordHarness(Harness):
         self.v_every = self.viol("every_word")          # completed word not reported
         self.v_word = self.viol("word_value")           # reported word != the word_size sampled bits
         self.v_tx = self.viol("tx_bits")                # SDO != presented word's bit
+        self.k_np2 = self.kf("nonpow2_after_first_word")
         self.c_word = self.cover("word")
         self.c_word2 = self.cover("second_word")
         self.c_word3 = self.cover("third_word")
@@ -133,8 +134,9 @@ class SpiWordHarness(Harness):
             self.v_word.eq(dut.word_complete & pending & (dut.word_in != exp)),
             self.v_every.eq(pending & ~dut.word_complete & ((age == 3) | done)),
             self.c_word.eq(dut.word_complete & pending),
-            self.c_word2.eq(dut.word_complete & pending & (exp_idx == 1)),
-            self.c_word3.eq(dut.word_complete & pending & (exp_idx == 2)),
+            # second / third word of one transaction completed on the wire (trigger of every_word / word_value)
+            self.c_word2.eq(done & (words == 1)),
+            self.c_word3.eq(done & (words == 2)),
         ]
         exp_ab = Signal(name="g_exp_ab")
         m.d.comb += self.c_abort.eq(dut.word_complete & pending & exp_ab)
@@ -144,6 +146,13 @@ class SpiWordHarness(Harness):
             sync += age.eq(age + 1)
         with m.If(done):
             sync += [pending.eq(1), age.eq(0), exp.eq(now_word), exp_idx.eq(words), exp_ab.eq(aborted)]
+
+        # --- scenario predicate of the recorded finding (bit counter is only reset by CS and wraps at a power of two):
+        # the word size is not a power of two and a first word has already been completed
+        first_done = Signal(name="g_first_done")
+        with m.If(done):
+            sync += first_done.eq(1)
+        m.d.comb += self.k_np2.eq(first_done if (ws & (ws - 1)) else 0)
 
         # --- transmit monitor: SDO at every sample edge
         first_is_out = Signal(name="g_first_is_out")
